@@ -76,8 +76,11 @@ def cases(tier, seed):
     out = []
     for sh in shapes:
         n = sh[0] * sh[1]
+        # quick tier: the six-cell shapes (729 matrices each) on the two layouts that differ most; every
+        # layout for the smaller shapes.  thorough: every layout for every shape.
+        lays = LAYOUTS if (tier == 'thorough' or n <= 4) else ['csr', 'unsorted']
         for vals in itertools.product((0, 1, 2), repeat=n):
-            for lay in LAYOUTS:
+            for lay in lays:
                 out.append({'shape': list(sh), 'vals': list(vals), 'layout': lay, 'alpha': '012'})
     neg_shapes = [(1, 2), (2, 1), (2, 2), (2, 3), (3, 2)]
     for sh in neg_shapes:
